@@ -34,3 +34,25 @@ Qed.
 Lemma kernel_exact env e (P : R) :
   supported e = true -> exact_safe env e -> rval env e = P -> B2R (fev env e) = P /\ is_finite (fev env e) = true.
 Proof. intros Hs He <-. destruct (eval_exact env e Hs He). auto. Qed.
+
+(* ---- consequences of the running error bound (lib/ErrorRun.v) ---- *)
+Require Import PP.ErrorRun.
+
+Lemma running_bound env e (P : R) : safe_run env e -> rval env e = P ->
+  Rabs (B2R (fev env e) - P) <= err_run env e /\ is_finite (fev env e) = true.
+Proof. intros Hs <-. destruct (eval_running env e Hs). auto. Qed.
+
+(* a polynomial with perturbed coefficients: |p^(X) - p(X)| <= sum e_i |X|^i *)
+Lemma polyval_dev (a b e : list R) (X : R) :
+  Forall2 (fun d ei => Rabs d <= ei) (zip_with Rminus a b) e -> length a = length b -> length a = length e ->
+  Rabs (polyval a X - polyval b X) <= polyval e (Rabs X).
+Proof.
+  revert b e. induction a as [|a0 ar IH]; intros [|b0 br] [|e0 er] H Hab Hae; try discriminate.
+  - cbn. rewrite Rminus_diag_eq by reflexivity. rewrite Rabs_R0. lra.
+  - cbn [zip_with] in H. inversion H; subst. cbn [polyval].
+    replace (a0 + X * polyval ar X - (b0 + X * polyval br X)) with ((a0 - b0) + X * (polyval ar X - polyval br X)) by ring.
+    eapply Rle_trans; [apply Rabs_triang|]. rewrite Rabs_mult.
+    assert (IHs : Rabs (polyval ar X - polyval br X) <= polyval er (Rabs X)) by (apply IH; [assumption|cbn in *; congruence|cbn in *; congruence]).
+    assert (Rabs X * Rabs (polyval ar X - polyval br X) <= Rabs X * polyval er (Rabs X)) by (apply Rmult_le_compat_l; [apply Rabs_pos|exact IHs]).
+    lra.
+Qed.
